@@ -6,6 +6,9 @@ import (
 
 func wr(t int) Proc         { return Proc{K: "write", Tag: t, Create: true, Abort: -1} }
 func gj(t int) Proc         { return Proc{K: "write", Tag: t, Create: false, Abort: -1} }
+
+// rwr: the real partition.Service.Write (stub journal) with outcome o (see Proc.Real)
+func rwr(t, o int) Proc { return Proc{K: "write", Tag: t, Create: true, Real: true, Abort: o} }
 func byid(p int, l bool) Proc { return Proc{K: "byid", P: p, Lock: l, Abort: -1} }
 func visit(skip, norel bool, m []int, abort int) Proc {
 	return Proc{K: "visit", Skip: skip, Norel: norel, M: m, Abort: abort}
@@ -56,6 +59,44 @@ func corpus() []Replay {
 }
 
 var all3 = []int{0, 1, 2}
+
+// writeCorpus: partition.Service.Write on every exit, parked while it holds the partition, with a
+// deleter (its LockExclusively must fail while the writer is there, and succeed afterwards), with a
+// waiting visit, and arriving while the partition is exclusively locked (it spins, then creates anew)
+func writeCorpus() []Replay {
+	var l []Replay
+	for _, o := range []int{-1, 0, 1, 2, 3} {
+		l = append(l,
+			Replay{Kind: "corpus", Pre: 1, Progs: [][]Proc{{rwr(0, o)}, {trunc([]int{0}, []int{0}, nil, false, -1), trunc([]int{0}, []int{0}, nil, false, -1)}}, Picks: []int{0, 1, 1, 1, 0, 1, 1, 1, 1}},
+			Replay{Kind: "corpus", Pre: 1, Progs: [][]Proc{{trunc([]int{0}, []int{0}, nil, false, -1)}, {rwr(0, o)}, {query([]int{0}, 50, -1)}}, Picks: []int{0, 0, 1, 2, 0, 1, 2, 1, 2}})
+	}
+	l = append(l, Replay{Kind: "corpus", Pre: 0, Progs: [][]Proc{{rwr(0, 0), rwr(0, 2), rwr(0, -1)}, {visit(false, true, []int{0}, -1)}}, Picks: []int{0, 0, 0, 1, 0, 1, 0, 0, 1}})
+	return l
+}
+
+// openFailCorpus: Journals.GetOrCreate failing in the other users of the index: GetJournal by source id,
+// the Partitions listing, the visitor of Truncate, truncateGlobally - alone, and with a second holder
+// (a writer parked on the partition / a deleter that must be able to lock it afterwards)
+func openFailCorpus() []Replay {
+	bi := func(p, o int) Proc { q := byid(p, true); q.Real, q.Abort = true, o; return q }
+	pv := func(m []int, o int) Proc { q := visit(false, false, m, o); q.Real = true; return q }
+	tf := func(m, zero []int, glob bool, of, gf []int) Proc {
+		q := trunc(m, zero, nil, glob, -1)
+		q.Ofail, q.Gfail = of, gf
+		return q
+	}
+	del := trunc(both, both, nil, false, -1)
+	return []Replay{
+		{Kind: "corpus", Pre: 2, Progs: [][]Proc{{bi(0, 0), bi(1, -1), bi(5, 0)}, {del}}, Picks: []int{0, 0, 0, 0, 0, 0, 1, 1, 1, 1, 1, 1}},
+		{Kind: "corpus", Pre: 2, Progs: [][]Proc{{bi(0, 0)}, {rwr(0, -1)}, {del}}, Picks: []int{1, 0, 2, 2, 2, 0, 1, 2, 2, 2}},
+		{Kind: "corpus", Pre: 2, Progs: [][]Proc{{pv(both, 0), pv(both, 1), pv(both, -1)}, {del}}, Picks: []int{0, 0, 0, 0, 0, 0, 0, 0, 0, 1, 1, 1, 1, 1, 1}},
+		{Kind: "corpus", Pre: 2, Progs: [][]Proc{{pv(both, 1)}, {del}}, Picks: []int{0, 1, 1, 0, 1, 1, 1, 0, 1}},
+		{Kind: "corpus", Pre: 2, Progs: [][]Proc{{tf(both, nil, true, nil, both)}, {del}}, Picks: []int{0, 0, 0, 0, 0, 0, 0, 0, 1, 1, 1, 1, 1, 1}},
+		{Kind: "corpus", Pre: 2, Progs: [][]Proc{{tf(both, nil, true, nil, []int{1})}, {rwr(1, -1)}, {del}}, Picks: []int{1, 0, 0, 0, 0, 0, 0, 0, 1, 2, 2, 2, 2, 2}},
+		{Kind: "corpus", Pre: 2, Progs: [][]Proc{{tf(both, both, true, []int{0}, nil)}, {del}}, Picks: []int{0, 0, 0, 0, 0, 0, 0, 0, 1, 1, 1, 1, 1, 1}},
+		{Kind: "corpus", Pre: 3, Progs: [][]Proc{{tf(all3, []int{0}, true, []int{1}, []int{2})}, {query(all3, 50, -1)}, {del}}, Picks: []int{1, 0, 0, 0, 1, 0, 0, 0, 0, 0, 2, 2, 2, 2}},
+	}
+}
 
 // limitCorpus: GetJournals with a limit of exactly / one below / one above the number of partitions the
 // condition selects (a cursor uses 50): exactly `limit` is served, `limit`+1 is refused with the
@@ -163,6 +204,8 @@ func exhaustivePairs() [][][]Proc {
 		{{query(both, 2, -1)}, {query(both, 50, 1), wr(1)}},
 		{{trunc(both, nil, nil, true, -1)}, {wr(0), wr(1)}},
 		{{trunc(both, both, nil, false, 0)}, {visit(true, false, both, -1), byid(0, true)}},
+		{{trunc(both, both, nil, false, -1)}, {rwr(0, 0), rwr(1, 2)}},
+		{{query(both, 2, -1)}, {rwr(1, 3), rwr(0, 1)}},
 	}
 }
 
@@ -204,15 +247,32 @@ func genProc(r *Rng, ntags int) Proc {
 	x := r.Intn(100)
 	switch {
 	case x < 22:
-		return Proc{K: "write", Tag: r.Intn(ntags), Create: !r.Chance(1, 4), Abort: -1}
+		p := Proc{K: "write", Tag: r.Intn(ntags), Create: !r.Chance(1, 4), Abort: -1}
+		if p.Create && r.Chance(1, 2) {
+			p.Real, p.Abort = true, r.PickInt(-1, -1, 0, 1, 2, 3)
+		}
+		return p
 	case x < 34:
-		return byid(r.Intn(ntags+2), !r.Chance(1, 4))
+		p := byid(r.Intn(ntags+2), !r.Chance(1, 4))
+		if p.Lock && r.Chance(1, 2) {
+			p.Real, p.Abort = true, r.PickInt(-1, -1, 0)
+		}
+		return p
 	case x < 52:
-		return visit(r.Chance(1, 2), r.Chance(1, 2), subset(r, ntags), optN(r, 1, 3, 3))
+		p := visit(r.Chance(1, 2), r.Chance(1, 2), subset(r, ntags), optN(r, 1, 3, 3))
+		if !p.Skip && !p.Norel && r.Chance(1, 2) {
+			p.Real = true
+		}
+		return p
 	case x < 70:
 		return query(subset(r, ntags), r.PickInt(1, 2, 3, 50, 50, 50), optN(r, 1, 4, 3))
 	default:
-		return trunc(subset(r, ntags), maybeSubset(r, ntags), maybeSubset(r, ntags), r.Chance(1, 2), optN(r, 1, 5, 3))
+		p := trunc(subset(r, ntags), maybeSubset(r, ntags), maybeSubset(r, ntags), r.Chance(1, 2), optN(r, 1, 5, 3))
+		if r.Chance(1, 4) {
+			p.Ofail = maybeSubset(r, ntags)
+			p.Gfail = maybeSubset(r, ntags)
+		}
+		return p
 	}
 }
 
